@@ -51,6 +51,8 @@ Line ==
      [] e.k = "end" -> e.status = "ok" /\ UNCHANGED vars /\ UNCH_T
      [] e.k \in Ignored -> UNCHANGED vars /\ UNCH_T
      [] e.k = "census" -> e.n = 0 /\ UNCHANGED vars /\ UNCH_T
+     \* C10: after everything was closed and every timer ran out no pipe id is reserved, no pipe listed
+     [] e.k = "final" -> e.ids = 0 /\ e.listed = 0 /\ UNCHANGED vars /\ UNCH_T
      [] e.k = "q" -> AtNow /\ ~CanInternal /\ UNCHANGED vars /\ UNCH_T
      [] e.k = "adv" ->
           /\ e.t >= now /\ NoDeadlineBy(e.t) /\ ~CanInternal /\ now' = e.t
